@@ -18,6 +18,7 @@ mod c09p;
 mod frame;
 mod xmlsurf;
 mod kdbx2;
+mod legacy;
 mod canon;
 
 use common::Args;
@@ -66,6 +67,7 @@ fn main() {
         "C03" | "C07" | "C08" | "C09" | "C12" => kdbx::run(&args),
         "C09P" => c09p::run(&args),
         "C01" | "C04" | "C05" | "C06" | "C20" => kdbx2::run(&args),
+        "C02" => legacy::run(&args),
         "C13" | "C14" | "C15" | "C16" => merge::run(&args),
         p => { eprintln!("unknown property {}", p); std::process::exit(2); }
     }
